@@ -558,9 +558,10 @@ pub fn run_history<H: ArchH>(rep: &mut Report, h: &Hist, hist_id: u64, all_gens:
                             format!("iterator: {it} ; repeated unwind_frame: {manual}"), context_of(&lines, here), &ans);
                     }
                 }
-                // C10: no (address, sp, fp) state twice; sp never decreases across caller frames
+                // C10: across the caller frames (states[0] is the interrupted first frame, whose
+                // step may legitimately lower sp) no (address, sp, fp) state twice; sp never decreases
                 for (i, st) in obs.states.iter().enumerate() {
-                    if i >= 1 && obs.states[..i].contains(st) && i >= 2 {
+                    if i >= 2 && obs.states[1..i].contains(st) {
                         add_oracle(rep, &["C10"], "walk-revisits-state",
                             format!("state (address={:#x}, sp={:#x}, fp={:#x}) visited twice in one walk", st.0, st.1, st.2),
                             context_of(&lines, here), &ans);
@@ -971,7 +972,8 @@ fn placement_twins<H: ArchH>(rep: &mut Report, p: &mut Prng, id: u64) {
     let uses_ip = |m: &ModSpec| match &m.data {
         DataSpec::Dwarf(_, fdes) => fdes.iter().any(|f| {
             f.rows.iter().any(|(_, r)| {
-                matches!(r.cfa, Cfa::RegOff(DReg::Ra, _)) || r.fp == RR::Register(DReg::Ra) || r.ra == RR::Register(DReg::Ra)
+                let ip_rule = |x: &RR| matches!(x, RR::Register(DReg::Ra) | RR::ExprReg(DReg::Ra, _) | RR::ValExprReg(DReg::Ra, _));
+                matches!(r.cfa, Cfa::RegOff(DReg::Ra, _) | Cfa::ExprRegOff(DReg::Ra, _)) || ip_rule(&r.fp) || ip_rule(&r.ra)
             })
         }),
         _ => false,
